@@ -447,3 +447,49 @@ def gen_world(r, ncases, **kw):
     for _ in range(ncases):
         ops += gen_world_case(r, **kw)
     return ops
+
+
+# ---------------------------------------------------------------- sensors (C08)
+import base64
+
+# (command output, expected Go strconv.ParseFloat outcome after strings.Trim(out, "\n"))
+CMD_OUTPUTS = [
+    ("42000", 42000.0), ("42000\n", 42000.0), ("\n\n42.5\n", 42.5), ("-5000", -5000.0), ("0", 0.0),
+    ("1e300", 1e300), ("4.9e-324", 5e-324), ("55123.75", 55123.75), ("+70000", 70000.0),
+    ("nan", float("nan")), ("NaN", float("nan")), ("inf", float("inf")), ("-inf", float("-inf")),
+    ("+Inf", float("inf")), ("Infinity", float("inf")),
+    ("1e999", None), ("-1e999", None), ("garbage", None), ("", None), (" 42", None), ("42 ", None),
+    ("42\n43", None), ("12,5", None), ("\n", None),
+]
+
+
+def gen_sensor_case(r, kind=None, n=40, fault_rate=0.2):
+    kind = kind or r.pick(["hwmon", "file", "cmd"])
+    win = r.pick([1, 1, 2, 3, 10, 10, 50])
+    avg0 = r.pick([0.0, 40000.0, float(r.range(-20000, 110000)), bits2f(finite_float_bits(r))])
+    ops = ["#case sn", f"sn.new kind={kind} win={win} avg={fx(avg0)}"]
+    base = r.range(20000, 90000)
+    for _ in range(r.range(1, n)):
+        if kind == "cmd":
+            if r.chance(fault_rate):
+                out, pv = r.pick(CMD_OUTPUTS[9:])
+                code = r.pick([0, 0, 0, 1, 3])
+            else:
+                out, pv = r.pick(CMD_OUTPUTS[:9])
+                code = 0
+            ptok = "err" if pv is None else "ok:" + fx(pv)
+            ops.append(f"sn.poll out={base64.b64encode(out.encode()).decode() or '='} exit={code} pv={ptok}")
+        else:
+            if r.chance(fault_rate):
+                ops.append("sn.poll read=" + r.pick(["perm", "other", "garbage", "empty"]))
+            else:
+                v = r.pick([base + r.range(-3000, 3000), base, r.range(-50000, 150000), r.range(-2**62, 2**62), 0])
+                ops.append(f"sn.poll read=ok:{v}")
+    return ops
+
+
+def gen_sensors(r, ncases, **kw):
+    ops = []
+    for _ in range(ncases):
+        ops += gen_sensor_case(r, **kw)
+    return ops
